@@ -59,6 +59,10 @@ impl RG {
 struct St {
     l: Ledger,
     g: Vec<[RG; 3]>, // per position, per reward
+    /// harness time of the last successful instruction that, by the statement, settles reward accrual (swap, liquidity change,
+    /// update-fees-and-rewards, set-reward-emissions) — the start of the program's next accrual interval, kept by the harness
+    /// instead of being read from the pool account
+    last: i64,
 }
 
 fn spec(label: &str, enc: [Enc; 3]) -> StdSpec {
@@ -228,10 +232,10 @@ impl<'a> M<'a> {
     fn initialized(pool: &decode::Pool, i: usize) -> bool {
         pool.reward_infos[i].mint != Pubkey::default()
     }
-    /// accrual of the interval (pool.reward_last_updated_timestamp, ts] at the pre-state rates, liquidity and active set
-    fn accrue(&self, l: &Ledger, ts: i64, g: &mut [[RG; 3]], count: bool) {
+    /// accrual of the interval (last settling instruction, ts] at the pre-state rates, liquidity and active set (`last` is the
+    /// harness's own record, not the pool's stored last-update time)
+    fn accrue(&self, l: &Ledger, last: i64, ts: i64, g: &mut [[RG; 3]], count: bool) {
         let pool = self.w().pool.state(l);
-        let last = pool.reward_last_updated_timestamp as i64;
         if ts <= last {
             return;
         }
@@ -367,6 +371,7 @@ impl<'a> Model for M<'a> {
                 fp_q(&mut h, &r.xsettled);
                 fp_q(&mut h, &r.xpending);
                 h.u128(r.collected);
+                h.u128(s.last as u128);
             }
         }
         h.finish()
@@ -414,10 +419,10 @@ impl<'a> Model for M<'a> {
         let mut g = s.g.clone();
         let ts = s.l.unix_ts;
         match op {
-            O::Base(Op::Swap { .. }) => self.accrue(&s.l, ts, &mut g, true),
-            O::SetEmissions { .. } => self.accrue(&s.l, ts, &mut g, true),
+            O::Base(Op::Swap { .. }) => self.accrue(&s.l, s.last, ts, &mut g, true),
+            O::SetEmissions { .. } => self.accrue(&s.l, s.last, ts, &mut g, true),
             O::Base(Op::Inc { pos, .. }) | O::Base(Op::Dec { pos, .. }) | O::Base(Op::Update { pos }) => {
-                self.accrue(&s.l, ts, &mut g, true);
+                self.accrue(&s.l, s.last, ts, &mut g, true);
                 let pi = *pos as usize;
                 self.settle(&mut g[pi], true);
                 let ps = w.positions[pi].state(&l);
@@ -449,7 +454,8 @@ impl<'a> Model for M<'a> {
             }
             _ => {}
         }
-        Ok(Some(St { l, g }))
+        let settles = matches!(op, O::Base(Op::Swap { .. }) | O::SetEmissions { .. } | O::Base(Op::Inc { .. }) | O::Base(Op::Dec { .. }) | O::Base(Op::Update { .. }));
+        Ok(Some(St { l, g, last: if settles { ts.max(s.last) } else { s.last } }))
     }
     fn check_state(&self, s: &St) -> Result<(), String> {
         let w = self.w();
@@ -471,10 +477,12 @@ impl<'a> Model for M<'a> {
         let mut c = s.l.clone();
         let mut g = s.g.clone();
         let mut any_funded = None;
+        let mut last = s.last;
         for (pi, p) in w.positions.iter().enumerate() {
             if p.state(&c).liquidity > 0 {
                 any_funded = Some(pi);
-                self.accrue(&c, c.unix_ts, &mut g, false);
+                self.accrue(&c, last, c.unix_ts, &mut g, false);
+                last = last.max(c.unix_ts);
                 let o = svm::process(&mut c, &world::ix_update_fees_and_rewards(p));
                 if !o.ok() {
                     return Err(format!("update_fees_and_rewards failed on a funded position: {}", o.short()));
@@ -529,7 +537,7 @@ fn mk_counters() -> Counters {
 fn root_states(wd: &Wd, m: &M) -> Result<Vec<(String, St)>, String> {
     let mut out = vec![];
     for (name, base, prefix) in &wd.prefixes {
-        let mut cur = St { l: base.clone(), g: (0..wd.w.positions.len()).map(|_| [RG::new(), RG::new(), RG::new()]).collect() };
+        let mut cur = St { l: base.clone(), g: (0..wd.w.positions.len()).map(|_| [RG::new(), RG::new(), RG::new()]).collect(), last: wd.w.pool.state(base).reward_last_updated_timestamp as i64 };
         for op in prefix {
             cur = m.step(&cur, op)?.ok_or_else(|| format!("root prefix op {op:?} failed"))?;
         }
